@@ -583,14 +583,14 @@ theorem rfPass_state_between (fault : Option (Nat × FaultKind)) (s : S) :
   · exact Or.inr rfl
   · by_cases h0 : j = 0
     · subst h0
-      cases k <;> cases hp : m.present s <;> cases hr : cfg.readonly <;> cases hc : cfg.createEnabled <;>
+      cases k <;> cases hp : m.present s <;> cases hde : cfg.deleteIfExists <;> cases hr : cfg.readonly <;> cases hc : cfg.createEnabled <;>
         cases hm : m.meets s <;> cases hpol : cfg.policy <;>
-        simp [rfPass, faultAt, mutateUnguarded, hp, hr, hc, hm, hpol]
+        simp [rfPass, faultAt, mutateUnguarded, hp, hde, hr, hc, hm, hpol]
     · by_cases h1 : j = 1
       · subst h1
-        cases k <;> cases hp : m.present s <;> cases hr : cfg.readonly <;> cases hc : cfg.createEnabled <;>
+        cases k <;> cases hp : m.present s <;> cases hde : cfg.deleteIfExists <;> cases hr : cfg.readonly <;> cases hc : cfg.createEnabled <;>
           cases hm : m.meets s <;> cases hpol : cfg.policy <;>
-          simp [rfPass, faultAt, mutateUnguarded, hp, hr, hc, hm, hpol]
+          simp [rfPass, faultAt, mutateUnguarded, hp, hde, hr, hc, hm, hpol]
       · rw [rfPass_far m cfg k (by omega)]; exact Or.inr rfl
 
 /-- an evaluation that answers Ok saw the object it returns and changed nothing -/
@@ -598,54 +598,61 @@ theorem rfPass_ok_unchanged (fault : Option (Nat × FaultKind)) (s x : S)
     (h : (rfPass m cfg fault s).ans = .ok x) : (rfPass m cfg fault s).st = s ∧ x = s := by
   rcases fault with _ | ⟨j, k⟩
   · revert h
-    cases hp : m.present s <;> cases hr : cfg.readonly <;> cases hc : cfg.createEnabled <;>
+    cases hp : m.present s <;> cases hde : cfg.deleteIfExists <;> cases hr : cfg.readonly <;> cases hc : cfg.createEnabled <;>
       cases hm : m.meets s <;> cases hpol : cfg.policy <;>
-      simp [rfPass, faultAt, mutateUnguarded, hp, hr, hc, hm, hpol] <;> intro h <;> exact h.symm
+      simp [rfPass, faultAt, mutateUnguarded, hp, hde, hr, hc, hm, hpol] <;> intro h <;> exact h.symm
   · by_cases h0 : j = 0
     · subst h0; revert h
-      cases k <;> cases hp : m.present s <;> cases hr : cfg.readonly <;> cases hc : cfg.createEnabled <;>
+      cases k <;> cases hp : m.present s <;> cases hde : cfg.deleteIfExists <;> cases hr : cfg.readonly <;> cases hc : cfg.createEnabled <;>
         cases hm : m.meets s <;> cases hpol : cfg.policy <;>
-        simp [rfPass, faultAt, mutateUnguarded, hp, hr, hc, hm, hpol] <;> intro h <;> exact h.symm
+        simp [rfPass, faultAt, mutateUnguarded, hp, hde, hr, hc, hm, hpol] <;> intro h <;> exact h.symm
     · by_cases h1 : j = 1
       · subst h1; revert h
-        cases k <;> cases hp : m.present s <;> cases hr : cfg.readonly <;> cases hc : cfg.createEnabled <;>
+        cases k <;> cases hp : m.present s <;> cases hde : cfg.deleteIfExists <;> cases hr : cfg.readonly <;> cases hc : cfg.createEnabled <;>
           cases hm : m.meets s <;> cases hpol : cfg.policy <;>
-          simp [rfPass, faultAt, mutateUnguarded, hp, hr, hc, hm, hpol] <;> intro h <;> exact h.symm
+          simp [rfPass, faultAt, mutateUnguarded, hp, hde, hr, hc, hm, hpol] <;> intro h <;> exact h.symm
       · rw [rfPass_far m cfg k (by omega)] at h ⊢
         revert h
-        cases hp : m.present s <;> cases hr : cfg.readonly <;> cases hc : cfg.createEnabled <;>
+        cases hp : m.present s <;> cases hde : cfg.deleteIfExists <;> cases hr : cfg.readonly <;> cases hc : cfg.createEnabled <;>
           cases hm : m.meets s <;> cases hpol : cfg.policy <;>
-          simp [rfPass, faultAt, mutateUnguarded, hp, hr, hc, hm, hpol] <;> intro h <;> exact h.symm
+          simp [rfPass, faultAt, mutateUnguarded, hp, hde, hr, hc, hm, hpol] <;> intro h <;> exact h.symm
 
-/-- **a fault that is hit is never answered with Ok** (`j < calls.length`: the faulted call was issued) -/
+/-- the one fault a Function cannot tell from the truth: a 404 on the GET of a `deleteIfExists` Function says "the
+    object is gone", which is all that Function wants to hear -/
+def Believable (cfg : RfCfg) (j : Nat) (k : FaultKind) : Prop :=
+  cfg.deleteIfExists = true ∧ j = 0 ∧ k = .e404
+
+/-- **a fault that is hit is never answered with Ok** (`j < calls.length`: the faulted call was issued) — except the
+    believable 404 above -/
 theorem rfPass_fault_never_ok (j : Nat) (k : FaultKind) (s : S)
-    (hhit : j < (rfPass m cfg (some (j, k)) s).calls.length) :
+    (hhit : j < (rfPass m cfg (some (j, k)) s).calls.length) (hnb : ¬ Believable cfg j k) :
     ∀ x, (rfPass m cfg (some (j, k)) s).ans ≠ .ok x := by
   intro x
+  unfold Believable at hnb
   by_cases h0 : j = 0
-  · subst h0; revert hhit
-    cases k <;> cases hp : m.present s <;> cases hr : cfg.readonly <;> cases hc : cfg.createEnabled <;>
+  · subst h0; revert hhit hnb
+    cases k <;> cases hp : m.present s <;> cases hde : cfg.deleteIfExists <;> cases hr : cfg.readonly <;> cases hc : cfg.createEnabled <;>
       cases hm : m.meets s <;> cases hpol : cfg.policy <;>
-      simp [rfPass, faultAt, mutateUnguarded, hp, hr, hc, hm, hpol]
+      simp [rfPass, faultAt, mutateUnguarded, hp, hde, hr, hc, hm, hpol]
   · by_cases h1 : j = 1
     · subst h1; revert hhit
-      cases k <;> cases hp : m.present s <;> cases hr : cfg.readonly <;> cases hc : cfg.createEnabled <;>
+      cases k <;> cases hp : m.present s <;> cases hde : cfg.deleteIfExists <;> cases hr : cfg.readonly <;> cases hc : cfg.createEnabled <;>
         cases hm : m.meets s <;> cases hpol : cfg.policy <;>
-        simp [rfPass, faultAt, mutateUnguarded, hp, hr, hc, hm, hpol]
+        simp [rfPass, faultAt, mutateUnguarded, hp, hde, hr, hc, hm, hpol]
     · exfalso
       rw [rfPass_far m cfg k (by omega)] at hhit
       revert hhit
-      cases hp : m.present s <;> cases hr : cfg.readonly <;> cases hc : cfg.createEnabled <;>
+      cases hp : m.present s <;> cases hde : cfg.deleteIfExists <;> cases hr : cfg.readonly <;> cases hc : cfg.createEnabled <;>
         cases hm : m.meets s <;> cases hpol : cfg.policy <;>
-        simp [rfPass, faultAt, mutateUnguarded, hp, hr, hc, hm, hpol] <;> omega
+        simp [rfPass, faultAt, mutateUnguarded, hp, hde, hr, hc, hm, hpol] <;> omega
 
 /-- the answer to a fault that is hit: Retry, PermFail, an escaping exception or a hang -/
 theorem rfPass_fault_answer (j : Nat) (k : FaultKind) (s : S)
-    (hhit : j < (rfPass m cfg (some (j, k)) s).calls.length) :
+    (hhit : j < (rfPass m cfg (some (j, k)) s).calls.length) (hnb : ¬ Believable cfg j k) :
     (∃ d, (rfPass m cfg (some (j, k)) s).ans = .retry d) ∨ (rfPass m cfg (some (j, k)) s).ans = .permFail ∨
     (rfPass m cfg (some (j, k)) s).ans = .raised ∨ (rfPass m cfg (some (j, k)) s).ans = .hung := by
   cases h : (rfPass m cfg (some (j, k)) s).ans with
-  | ok x => exact absurd h (rfPass_fault_never_ok m cfg j k s hhit x)
+  | ok x => exact absurd h (rfPass_fault_never_ok m cfg j k s hhit hnb x)
   | retry d => exact Or.inl ⟨d, rfl⟩
   | permFail => exact Or.inr (Or.inl rfl)
   | raised => exact Or.inr (Or.inr (Or.inl rfl))
@@ -653,19 +660,21 @@ theorem rfPass_fault_answer (j : Nat) (k : FaultKind) (s : S)
 
 /-- with create and patch reaching a matching object (C04) and no delete-to-recreate policy, the state after
     ONE fault-free evaluation is stable -/
-theorem rfPass_stable (hconv : Converges m) (hpol : cfg.policy ≠ .recreate) (s : S) :
+theorem rfPass_stable (hconv : Converges m) (hpol : cfg.policy ≠ .recreate) (hnd : cfg.deleteIfExists = false)
+    (s : S) :
     (rfPass m cfg none (rfPass m cfg none s).st).st = (rfPass m cfg none s).st := by
   cases hp : m.present s with
   | false =>
     obtain ⟨h1, h2⟩ := hconv.create_ok s hp
     cases hr : cfg.readonly <;> cases hc : cfg.createEnabled <;>
-      simp [rfPass, faultAt, mutateUnguarded, hp, hr, hc, h1, h2]
+      simp [rfPass, faultAt, mutateUnguarded, hp, hr, hc, h1, h2, hnd]
   | true =>
     obtain ⟨h1, h2⟩ := hconv.patch_ok s hp
     cases hr : cfg.readonly <;> cases hm : m.meets s <;> cases hpo : cfg.policy <;>
       simp_all [rfPass, faultAt, mutateUnguarded]
 
-theorem iter_stable (hconv : Converges m) (hpol : cfg.policy ≠ .recreate) (s : S) :
+theorem iter_stable (hconv : Converges m) (hpol : cfg.policy ≠ .recreate) (hnd : cfg.deleteIfExists = false)
+    (s : S) :
     ∀ n, 1 ≤ n → iter m cfg n s = iter m cfg 1 s := by
   intro n hn
   induction n with
@@ -681,13 +690,13 @@ theorem iter_stable (hconv : Converges m) (hpol : cfg.policy ≠ .recreate) (s :
         induction n with
         | zero => intro s' _; rfl
         | succ q ihq => intro s' hs'; simp only [iter]; rw [hs']; exact ihq s' hs'
-      rw [this _ _ (rfPass_stable m cfg hconv hpol s)]
+      rw [this _ _ (rfPass_stable m cfg hconv hpol hnd s)]
       rfl
 
 /-- after any sequence of faulty evaluations the resource is where it started or where one fault-free
     evaluation takes it -/
 theorem afterFaults_on_trajectory (hconv : Converges m) (hpol : cfg.policy ≠ .recreate)
-    (fs : List (Option (Nat × FaultKind))) (s0 : S) :
+    (hnd : cfg.deleteIfExists = false) (fs : List (Option (Nat × FaultKind))) (s0 : S) :
     afterFaults m cfg fs s0 = s0 ∨ afterFaults m cfg fs s0 = iter m cfg 1 s0 := by
   suffices h : ∀ s, (s = s0 ∨ s = iter m cfg 1 s0) →
       (afterFaults m cfg fs s = s0 ∨ afterFaults m cfg fs s = iter m cfg 1 s0) from h s0 (Or.inl rfl)
@@ -703,7 +712,7 @@ theorem afterFaults_on_trajectory (hconv : Converges m) (hpol : cfg.policy ≠ .
       · exact Or.inr h
     · right
       have hst : (rfPass m cfg none (iter m cfg 1 s0)).st = iter m cfg 1 s0 :=
-        rfPass_stable m cfg hconv hpol s0
+        rfPass_stable m cfg hconv hpol hnd s0
       rcases rfPass_state_between m cfg f (iter m cfg 1 s0) with h | h
       · exact h
       · rw [h, hst]
